@@ -264,7 +264,7 @@ def validate(spec: ModelSpec, c: tv.Compiled, tally: decide.Tally, vectorized: b
                     res['violations'].append(rec)
                 else:
                     tally.sat_spurious += 1
-                    res['inconclusive'].append(dict(kind='sat-not-reproduced-on-real-function', **rec))
+                    res['inconclusive'].append(dict(rec, kind='sat-not-reproduced-on-real-function'))
         elif v == 'unknown':
             res['inconclusive'].append(dict(kind='solver-unknown', what='/'.join(sv)))
         res['obligations'].append(ob)
